@@ -100,8 +100,13 @@ def run_case(case):
             r.fail('%s:%s' % (what, mode), msg)
 
     with dwtu.default_dtype(torch.float64):
-        fwd = DWTForward(J=J, wave=_filters(case, 'dec'), mode=mode)
-        inv = DWTInverse(wave=_filters(case, 'rec'), mode=mode)
+        fd, fr = _filters(case, 'dec'), _filters(case, 'rec')
+        fwd = DWTForward(J=J, wave=fd, mode=mode)
+        inv = DWTInverse(wave=fr, mode=mode)
+        for arrs in (fd, fr):
+            if isinstance(arrs, tuple):
+                for a_ in arrs:
+                    a_[...] = 7.0               # the caller reuses its arrays: the modules must own copies
         fwd_sw = DWTForward(J=J, wave=(_filters({**case, 'wcol': wr, 'wrow': wc, 'form': '4tuple'}, 'dec')),
                             mode=mode)
 
